@@ -245,6 +245,7 @@ CROPS = [  # (crop, planting, weather, kind, note)
     ("Potato", "04/15", "tunis", "switch", "SwitchGDD=1 root/tuber"),
     ("Tomato", "04/15", "tunis", "switch", "SwitchGDD=1 fruit/grain"),
     ("Cotton", "04/15", "champion", "cd", "Zmax 2.0"),
+    ("Maize", "05/01", "champion", "switchharvest", "SwitchGDD=1 with an explicit latest harvest date (initialisation of the converted crop is not idempotent)"),
     # thorough only below
     ("Potato", "04/15", "tunis", "cd", ""), ("PotatoGDD", "04/15", "tunis", "gdd", ""),
     ("DryBeanGDD", "10/15", "tunis", "gdd", ""), ("Barley", "10/15", "tunis", "switch", "SwitchGDD=1, spans New Year"),
@@ -289,6 +290,8 @@ def make_cfg(ci, code, rot, rng_year):
     cfg = {"crop": crop, "plant": plant, "wx": wx, "kind": kind}
     if kind == "switch":
         cfg["crop_kw"] = {"SwitchGDD": 1}
+    if kind == "switchharvest":
+        cfg["crop_kw"] = {"SwitchGDD": 1, "harvest_date": "10/30"}
     if autumn:
         cfg["start"], cfg["end"] = "%d/%s" % (y0, plant), "%d/09/30" % (y0 + 2)
     else:
@@ -540,7 +543,7 @@ def main():
     failures, exceptions, samples = [], [], []
     cases = nontrivial = 0
     try:
-        ncrops = 8 if quick else len(CROPS)
+        ncrops = 9 if quick else len(CROPS)
         nrot = 1 if quick else 3
         jobs = []
         cross_kinds = ["soil", "crop", "irr", "co2", "gw", "field", "iwc", "weather_df"]
@@ -615,7 +618,7 @@ def main():
             "3rd and 4th new model on O, snapshot diff of all input objects; cross-use re-use of a once-used object in a different configuration "
             "(soil with a shallow crop; crop/irrigation/CO2/groundwater/field/iwc/weather in a window shifted by 1 or 3 years): %s runs. "
             "Tables compared bitwise: water_flux, water_storage, crop_growth, final_stats."
-            % (len(jobs), ncrops, [c[0] + ("+SwitchGDD" if c[3] == "switch" else "") for c in CROPS[:ncrops]], nrot, cross_count))
+            % (len(jobs), ncrops, [c[0] + ("+SwitchGDD" if c[3].startswith("switch") else "") for c in CROPS[:ncrops]], nrot, cross_count))
         res["rule"] = ("a case is one configuration put through the whole protocol; it is non-trivial when the reference run has non-zero daily "
                        "fluxes and at least one final_stats row (a harvested or terminated season), counted once per distinct configuration signature. "
                        "Configurations that raise on their very first run on fresh objects are excluded (listed under 'exceptions').")
